@@ -180,41 +180,40 @@ Proof.
   rewrite forallb_forall. split; intros H x Hx; specialize (H x Hx); destruct (find x T); congruence.
 Qed.
 
+Lemma asg_case T st x T' :
+  assign_target st = Some x ->
+  (match find x T, find x T' with
+   | Some (true, _), Some (true, _) => frameb [x] T T'
+   | _, _ => false
+   end = true <-> step_ok T st true T').
+Proof.
+  intros Hx. split.
+  - destruct (find x T) as [[[|] v0]|] eqn:E0; try discriminate.
+    destruct (find x T') as [[[|] v1]|] eqn:E1; try discriminate.
+    intros H. apply frameb_frame in H. eapply ok_asg; eassumption.
+  - intros H. inversion H; subst; try discriminate.
+    assert (x0 = x) by congruence. subst.
+    rewrite H1, H2. apply frameb_frame. assumption.
+Qed.
+
 Theorem step_okb_ok T st ok T' : step_okb T st ok T' = true <-> step_ok T st ok T'.
 Proof.
   unfold step_okb. destruct ok; cbn [negb].
   2:{ rewrite frameb_frame. split; [apply ok_err | intros H; inversion H; assumption]. }
-  destruct st as [mu x e|x e|x i s|x i j s|x o e|x f e|x k e|xs e]; cbn [assign_target].
+  destruct st as [mu x e|x e|x i s|x i j s|x o e|x f e|x k e|xs e]; cbn [assign_target];
+    try (apply asg_case; reflexivity).
   - destruct (find x T) as [r|] eqn:Ef.
-    { split; [discriminate | intros H; inversion H; subst; [congruence | discriminate]]. }
+    { split; [discriminate | intros H; inversion H; subst; [rewrite Ef in *; discriminate | discriminate]]. }
     destruct (seval T e) as [v|] eqn:Ee.
-    2:{ split; [discriminate | intros H; inversion H; subst; [congruence | discriminate]]. }
+    2:{ split; [discriminate | intros H; inversion H; subst; [rewrite Ee in *; discriminate | discriminate]]. }
     rewrite andb_true_iff, orow_eqb_eq, frameb_frame. split.
     + intros [H1 H2]. eapply ok_def; eassumption.
-    + intros H. inversion H; subst; [|discriminate]. split; [congruence | assumption].
-  - destruct (find x T) as [[[|] v0]|] eqn:E0; try (split; [discriminate | intros H; inversion H; subst; cbn in *; congruence]).
-    destruct (find x T') as [[[|] v1]|] eqn:E1; try (split; [discriminate | intros H; inversion H; subst; cbn in *; congruence]).
-    rewrite frameb_frame. split; [intros H; eapply ok_asg; [reflexivity|eassumption|eassumption|assumption] | intros H; inversion H; subst; cbn in *; congruence].
-  - destruct (find x T) as [[[|] v0]|] eqn:E0; try (split; [discriminate | intros H; inversion H; subst; cbn in *; congruence]).
-    destruct (find x T') as [[[|] v1]|] eqn:E1; try (split; [discriminate | intros H; inversion H; subst; cbn in *; congruence]).
-    rewrite frameb_frame. split; [intros H; eapply ok_asg; [reflexivity|eassumption|eassumption|assumption] | intros H; inversion H; subst; cbn in *; congruence].
-  - destruct (find x T) as [[[|] v0]|] eqn:E0; try (split; [discriminate | intros H; inversion H; subst; cbn in *; congruence]).
-    destruct (find x T') as [[[|] v1]|] eqn:E1; try (split; [discriminate | intros H; inversion H; subst; cbn in *; congruence]).
-    rewrite frameb_frame. split; [intros H; eapply ok_asg; [reflexivity|eassumption|eassumption|assumption] | intros H; inversion H; subst; cbn in *; congruence].
-  - destruct (find x T) as [[[|] v0]|] eqn:E0; try (split; [discriminate | intros H; inversion H; subst; cbn in *; congruence]).
-    destruct (find x T') as [[[|] v1]|] eqn:E1; try (split; [discriminate | intros H; inversion H; subst; cbn in *; congruence]).
-    rewrite frameb_frame. split; [intros H; eapply ok_asg; [reflexivity|eassumption|eassumption|assumption] | intros H; inversion H; subst; cbn in *; congruence].
-  - destruct (find x T) as [[[|] v0]|] eqn:E0; try (split; [discriminate | intros H; inversion H; subst; cbn in *; congruence]).
-    destruct (find x T') as [[[|] v1]|] eqn:E1; try (split; [discriminate | intros H; inversion H; subst; cbn in *; congruence]).
-    rewrite frameb_frame. split; [intros H; eapply ok_asg; [reflexivity|eassumption|eassumption|assumption] | intros H; inversion H; subst; cbn in *; congruence].
-  - destruct (find x T) as [[[|] v0]|] eqn:E0; try (split; [discriminate | intros H; inversion H; subst; cbn in *; congruence]).
-    destruct (find x T') as [[[|] v1]|] eqn:E1; try (split; [discriminate | intros H; inversion H; subst; cbn in *; congruence]).
-    rewrite frameb_frame. split; [intros H; eapply ok_asg; [reflexivity|eassumption|eassumption|assumption] | intros H; inversion H; subst; cbn in *; congruence].
+    + intros H. inversion H; subst; [|discriminate]. rewrite Ee in *. split; [congruence | assumption].
   - destruct (seval T e) as [[| | | |l|]|] eqn:Ee;
-      try (split; [discriminate | intros H; inversion H; subst; [congruence | discriminate]]).
+      try (split; [discriminate | intros H; inversion H; subst; [rewrite Ee in *; discriminate | discriminate]]).
     rewrite !andb_true_iff, nodupb_NoDup, forallb_undef, destr_rowsb_spec, frameb_frame. split.
     + intros [[H1 H2] [[H3 H4] H5]]. eapply ok_destr; eassumption.
-    + intros H. inversion H; subst; [|discriminate].
+    + intros H. inversion H; subst; [|discriminate]. rewrite Ee in *.
       assert (l0 = l) by congruence. subst. tauto.
 Qed.
 
